@@ -3,6 +3,7 @@ import facts
 import aff
 import radau
 import C19
+import dense
 
 LEVEL = "proof"
 
@@ -23,5 +24,13 @@ def run(rep, tier):
     radau.r_radau_dense(rep, f, rule="R-AFF-ENDPT")
     rep.rule("R-SOLOUT-CONTIG", "segments abut: each interpolant covers exactly [xold, x] and xold is the previous x (all six solvers, all path variants)")
     C19.init_contig_rules(rep, f)
+    rep.rule("R-SOL-ERRMAP", "Solution::sol/sol_many: no dense output -> NotEnabled, t outside [min,max] of the span -> OutOfRange; continuous_sol is Some exactly when dense_output was requested")
+    rep.rule("R-CONT-LAYOUT", "per method: allocation of cont, blocks read by interpolate, Method::coeffs_per_state and Method::interpolate_fn agree")
+    rep.rule("R-SEG-KEEP", "the output handler stores every non-degenerate segment, guarded only by (collect_dense, x != xold, interpolant present, h != 0), before any return")
+    rep.rule("R-SEG-LOOKUP", "segment lookup uses the direction-agnostic window [min(xold,xold+h)-tol, max(..)+tol]")
+    dense.r_sol_errmap(rep, f)
+    dense.r_cont_layout(rep, f)
+    dense.r_seg_keep(rep, f)
+    dense.r_seg_lookup(rep, f)
     rep.explanation = "End-point identities of every step interpolant (explicit methods) at proof level; segment = step taken."
     rep.trusted_base = ["rustc nightly HIR/typeck", "driver/ivp-facts", "engine/symx.py"]
